@@ -193,6 +193,24 @@ func interactiveCase(raw json.RawMessage, c *scase) {
 			run.Violate("interactive", "leak:"+kinds+":"+l.Line, fmt.Sprintf("line %d %q after %q differs from a fresh session with options %q:\n--- in session\n%s\n--- fresh\n%s", i, l.Line, typed[:i], c.Prefix[i], clip(got), clip(want)), raw, nil)
 		}
 	}
+	// lines that only print through the UI (the option listing, the help text): what they print must not depend on
+	// what ran before either
+	for i, l := range c.Lines {
+		if l.Kind != "noop" || !(l.Line == "o" || l.Line == "help" || l.Line == "help top") {
+			continue
+		}
+		pre := append(append([]string{}, c.Prefix[i]...), l.Line)
+		key := "ui:" + strings.Join(pre, "\n")
+		want, ok := refCache[key]
+		if !ok {
+			ref := session(append(pre, "top >probe"))
+			want = []byte(ref.UIOf(len(pre) - 1))
+			refCache[key] = want
+		}
+		if got := r.UIOf(i); got != string(want) {
+			run.Violate("interactive", "leak-ui:"+kinds+":"+l.Line, fmt.Sprintf("line %d %q after %q prints something else than in a fresh session with options %q:\n%s", i, l.Line, typed[:i], c.Prefix[i], firstDiff([]byte(got), want)), raw, nil)
+		}
+	}
 	// the session is still usable and nothing but the assignments changed it
 	want, _ := reference(c.Final, "top")
 	if got := r.Files["probe"]; !bytes.Equal(got, want) {
@@ -220,6 +238,7 @@ func clip(b []byte) string {
 
 var requests = []string{"/top", "/top?f=g", "/top?i=h", "/peek?f=g", "/flamegraph", "/flamegraph?h=f", "/top?si=s1", "/top?g=lines", "/top?n=1&s=cum",
 	"/source?f=f", "/top?tf=k:x", "/top?th=k", "/top?rel=t&f=h", "/flamegraph?sf=g", "/top?tagroot=k", "/download",
+	"/flamegraph?g=lines", "/flamegraph?noinlines=t", "/flamegraph?g=files", "/top?g=files&s=cum",
 	// C09: query strings that must be answered with an error page, not a crash
 	"/top?n=zz", "/top?f=(", "/peek?f=(", "/top?si=nosuch", "/top?g=bogus", "/top?nf=1e999", "/flamegraph?i=(", "/top?tf=99999999999999999999:", "/source?f=", "/disasm?f=f",
 	"/top?%zz", "/top?n=-5", "/top?unit=parsecs", "/nosuchpage"}
